@@ -132,3 +132,24 @@ fn d4_three_byte_candidate_at_end_of_input() {
     }
     assert!(panics.is_empty(), "{} inputs made decompress_deflate_stream panic", panics.len());
 }
+
+/// D1: a valid stream that codes length 258 as symbol 284 + five extra one-bits (zlib's inflate accepts it).
+/// On the pinned tree the block writer emitted 31 bits of value 5 and dropped the distance, so the stream was
+/// accepted with verify=false and reconstructed differently.
+#[test]
+fn d1_non_canonical_258() {
+    let d: Vec<u8> = vec![75, 28, 249, 0, 0];
+    for verify in [false, true] {
+        match decompress_deflate_stream(&d, verify, 0) {
+            Ok(res) => {
+                assert_eq!(res.plain_text.len(), 259);
+                let back = recompress_deflate_stream(&res.plain_text, &res.prediction_corrections).unwrap();
+                assert_eq!(&back[..], &d[..res.compressed_size], "accepted (verify={}) but reconstructed differently", verify);
+            }
+            Err(e) => {
+                // rejecting is allowed by C02, but this stream is representable: the parser captured irregular258
+                panic!("rejected with verify={}: {:?}", verify, e);
+            }
+        }
+    }
+}
